@@ -45,8 +45,11 @@ macro_rules! registry {
 
 registry! {
     "C01" => c01,
+    "C02" => c02,
+    "C04" => c04,
     "C05" => c05,
     "C06" => c06,
+    "C09" => c09,
     "C11" => c11,
     "C12" => c12,
     "C13" => c13,
